@@ -177,10 +177,12 @@ func checkRefsFor(p *Program, r *Report) {
 	returnsRecord := func(f *ssa.Function) bool {
 		res := f.Signature.Results()
 		for i := 0; i < res.Len(); i++ {
-			if pt, ok := res.At(i).Type().(*types.Pointer); ok {
-				if n, ok := pt.Elem().(*types.Named); ok && strings.HasSuffix(n.Obj().Name(), "Record") {
-					return true
-				}
+			t := res.At(i).Type()
+			if pt, ok := t.(*types.Pointer); ok {
+				t = pt.Elem()
+			}
+			if n, ok := t.(*types.Named); ok && strings.HasSuffix(n.Obj().Name(), "Record") {
+				return true
 			}
 		}
 		return false
